@@ -85,8 +85,20 @@ PROPS = {
                    "Verus; Kani timed out at 7-15 min on 3-byte strings) is an uninterpreted function spec_list_grants"],
         assumptions=["format!(\"$$permission_${}\", user) and format!(\"$$user_{}\", user) concatenate (trusted shims)"],
     ),
+    "C12": dict(
+        units=["oplog"],
+        kani=[K_CODEC],
+        undecided=["rotation: Oplog::get_log_file_append_mode / remove_old_db_files (directory listing, creation times) - 'rotation keeps the newest records' is NOT decided",
+                   "read_operations_since's loop over the rotated files (fs::read_dir) is glue: the per-file contract is what is proved",
+                   "termination of the search loop is not proved (exec_allows_no_decreases_clause)",
+                   "that the writer keeps timestamps non-decreasing and the file a whole number of records (preconditions sorted_log / well_formed_log)"],
+        assumptions=["file model: std::fs::File is a byte sequence plus position; seek(Start) sets it; read never fails and is short only at EOF; metadata().len() is the size",
+                     "BufWriter<File> in append mode is modelled by LogStream: write() of <= 25 bytes appends all of them",
+                     "u64::from_le_bytes / to_le_bytes equal vstd's little-endian spec functions; format!(\"{}_{}\", db, key) is an uninterpreted text",
+                     "every finite character sequence is the text of some String (axiom_string_exists)"],
+    ),
     "C13": dict(
-        units=["consensus"],
+        units=["consensus", "store"],
         undecided=["order across several queued writes beyond one step, arbiter reconnects (register_arbiter's re-delivery loop is not under contract)",
                    "primary/secondary forwarding of resolve, replicas holding the resolved value",
                    "which $conflicts_ keys the listing returns (Database::list_keys is an iterator pipeline: trusted spec)"],
@@ -104,13 +116,13 @@ PROPS = {
         assumptions=["db_ids_small: identifiers in use are below usize::MAX", "invalidate_oplog is replaced by a shim that touches no identifier map (R8)"],
     ),
     "C19": dict(
-        units=["consensus"],
+        units=["consensus", "store"],
         undecided=["two concurrent clients (lock elision)", "'applied in the primary's order on every node' (replication)"],
         assumptions=["Change::new stamps the resolving change with the wall clock (any u64)"],
     ),
     "C10": dict(
-        units=["store", "consensus", "security", "ids"],
-        reachable={"store": STORE_FNS, "security": SECURITY_FNS, "ids": ["generate_key_id", "create_temp_db", "Databases::add_database", "Databases::next_db_id"], "consensus": ["Database::try_resolve_conflict_response", "apply_change_to_db_try_fix_conflicts",
+        units=["store", "consensus", "security", "ids", "oplog"],
+        reachable={"store": STORE_FNS, "security": SECURITY_FNS, "oplog": ["read_operations_since_from_file", "Oplog::last_op_time", "Oplog::write_op_log", "ReplicateOpp::to_u8", "From<u8>@ReplicateOpp::from", "OpLogRecord::new"], "ids": ["generate_key_id", "create_temp_db", "Databases::add_database", "Databases::next_db_id"], "consensus": ["Database::try_resolve_conflict_response", "apply_change_to_db_try_fix_conflicts",
                    "set_key_value", "Database::resolve_conflit", "Database::has_arbiter_connected", "Change::new"]},
         undecided=["transport loops, dispatcher unwraps, lock poisoning propagation"],
         assumptions=[],
